@@ -684,7 +684,7 @@ pub proof fn lemma_tailn_step(s: Seq<BlockRange>, i: int, t0: ISet<int>, t1: ISe
 {
     broadcast use vstd::iset::group_iset_lemmas;
     lemma_prefix_step(s, i);
-    lemma_prefix_below(s, i);
+    lemma_prefix_lt(s, i);
     lemma_iv_len(r@.start as int, r@.end as int);
     assert(r_set(r) =~= iv(r@.start as int, r@.end as int));
     assert(r_valid(s[i]));
@@ -858,6 +858,139 @@ pub proof fn lemma_cic_some(s: Seq<BlockRange>, r: BlockRange, a: int, b: int)
 // BlockRangeExt: contracts live on the trait declaration (Verus forbids
 // `requires` on impl methods); the impl bodies below are the /repo text.
 // ---------------------------------------------------------------------------
+// ---- partitions ----
+pub open spec fn part_ok(s: ISet<int>, l: ISet<int>, m: int, r: ISet<int>) -> bool {
+    &&& s.contains(m) && !l.contains(m) && !r.contains(m)
+    &&& s == l.union(r).insert(m)
+    &&& forall|x: int| l.contains(x) ==> x < m
+    &&& forall|x: int| r.contains(x) ==> m < x
+    &&& s.finite() && l.finite() && r.finite() && l.len() + r.len() + 1 == s.len()
+}
+// loop invariant of `partitions` after `i` ranges: `l`/`r` split the first `i` ranges, everything in `l` is below
+// everything in `r`, and `r` only starts to fill once `l` holds at least `mid` heights
+pub open spec fn part_inv(s: Seq<BlockRange>, i: int, l: ISet<int>, r: ISet<int>, ll: int, mid: int) -> bool {
+    &&& l.finite() && r.finite() && l.len() == ll
+    &&& l.union(r) == seq_view(s.subrange(0, i))
+    &&& ll + r.len() == seq_len(s.subrange(0, i))
+    &&& forall|x: int, y: int| l.contains(x) && r.contains(y) ==> x < y
+    &&& (r.len() > 0 ==> ll >= mid)
+}
+// heights of range k lie above every height of the ranges before it
+pub proof fn lemma_prefix_lt(s: Seq<BlockRange>, k: int)
+    requires wf_seq(s), 0 <= k < s.len()
+    ensures forall|x: int, y: int| seq_has(s.subrange(0, k), x) && r_has(s[k], y) ==> x < y
+{
+    assert forall|x: int, y: int| seq_has(s.subrange(0, k), x) && r_has(s[k], y) implies x < y by {
+        lemma_sub_has(s, 0, k, x);
+        let j = choose|j: int| 0 <= j < k && r_has(#[trigger] s[j], x);
+        assert(s[j]@.end + 1 < s[k]@.start);
+    }
+}
+pub proof fn lemma_wf_prefix(s: Seq<BlockRange>, k: int)
+    requires wf_seq(s), 0 <= k <= s.len()
+    ensures wf_seq(s.subrange(0, k))
+{
+    let p = s.subrange(0, k);
+    assert forall|i: int| 0 <= i < p.len() implies r_valid(#[trigger] p[i]) by { assert(p[i] == s[i]); }
+    assert forall|i: int, j: int| 0 <= i < j < p.len() implies (#[trigger] p[i])@.end + 1 < (#[trigger] p[j])@.start by { assert(p[i] == s[i]); assert(p[j] == s[j]); }
+}
+// the heights after range k fit between its end and the end of the last range
+pub proof fn lemma_seq_len_rest(s: Seq<BlockRange>, k: int)
+    requires wf_seq(s), 0 <= k < s.len()
+    ensures seq_len(s) - seq_len(s.subrange(0, k + 1)) <= s.last()@.end - s[k]@.end
+    decreases s.len()
+{
+    if k == s.len() - 1 {
+        assert(s.subrange(0, k + 1) =~= s);
+    } else {
+        let p = s.drop_last();
+        lemma_wf_prefix(s, s.len() - 1);
+        assert(p =~= s.subrange(0, s.len() - 1));
+        lemma_seq_len_rest(p, k);
+        assert(p.subrange(0, k + 1) =~= s.subrange(0, k + 1));
+        assert(p[k] == s[k]);
+        assert(p.last() == s[s.len() - 2]);
+        assert(s[s.len() - 2]@.end + 1 < s[s.len() - 1]@.start);
+        assert(r_valid(s[s.len() - 1]));
+    }
+}
+// one whole range goes to one side
+pub proof fn lemma_part_step(s: Seq<BlockRange>, i: int, l: ISet<int>, r: ISet<int>, ll: int, mid: int, to_left: bool)
+    requires wf_seq(s), 0 <= i < s.len(), part_inv(s, i, l, r, ll, mid),
+        to_left ==> ll < mid, !to_left ==> ll >= mid,
+    ensures
+        to_left ==> part_inv(s, i + 1, l.union(r_set(s[i])), r, ll + r_len(s[i]), mid),
+        !to_left ==> part_inv(s, i + 1, l, r.union(r_set(s[i])), ll, mid),
+{
+    broadcast use vstd::iset::group_iset_lemmas;
+    let x = s[i];
+    let pre = s.subrange(0, i);
+    let cur = s.subrange(0, i + 1);
+    assert(cur =~= pre.push(x));
+    assert(cur.drop_last() =~= pre);
+    assert(r_valid(x));
+    lemma_prefix_lt(s, i);
+    lemma_iv_len(x@.start as int, x@.end as int);
+    assert(r_set(x) =~= iv(x@.start as int, x@.end as int));
+    assert forall|h: int| seq_has(cur, h) == (seq_has(pre, h) || r_has(x, h)) by { lemma_has_push(pre, x, h); }
+    assert forall|h: int| l.union(r).contains(h) == seq_has(pre, h) by {}
+    if to_left {
+        assert(r =~= ISet::<int>::empty()) by { if r.len() > 0 { } else { } }
+        assert(l.disjoint(r_set(x))) by { assert forall|h: int| !(l.contains(h) && r_set(x).contains(h)) by { if l.contains(h) { assert(l.union(r).contains(h)); } } }
+        lemma_disj_union_len(l, r_set(x));
+        assert(l.union(r_set(x)).union(r) =~= seq_view(cur));
+    } else {
+        assert(r.disjoint(r_set(x))) by { assert forall|h: int| !(r.contains(h) && r_set(x).contains(h)) by { if r.contains(h) { assert(l.union(r).contains(h)); } } }
+        lemma_disj_union_len(r, r_set(x));
+        assert(l.union(r.union(r_set(x))) =~= seq_view(cur));
+        assert forall|a: int, b: int| l.contains(a) && r.union(r_set(x)).contains(b) implies a < b by { if !r.contains(b) { assert(l.union(r).contains(a)); } }
+    }
+}
+// the range that straddles the middle is split at `cut`
+pub proof fn lemma_part_split(s: Seq<BlockRange>, i: int, l: ISet<int>, r: ISet<int>, ll: int, mid: int, cut: int, l2: ISet<int>, r2: ISet<int>)
+    requires wf_seq(s), 0 <= i < s.len(), part_inv(s, i, l, r, ll, mid), ll < mid,
+        s[i]@.start <= cut <= s[i]@.end, cut == s[i]@.start + mid - ll,
+        l2 == l.union(iv(s[i]@.start as int, cut)),
+        r2 == (if cut < s[i]@.end { r.union(iv(cut + 1, s[i]@.end as int)) } else { r }),
+    ensures
+        part_inv(s, i + 1, l2, r2, mid + 1, mid),
+{
+    broadcast use vstd::iset::group_iset_lemmas;
+    let x = s[i];
+    let pre = s.subrange(0, i);
+    let cur = s.subrange(0, i + 1);
+    assert(cur =~= pre.push(x));
+    assert(cur.drop_last() =~= pre);
+    assert(r_valid(x));
+    lemma_prefix_lt(s, i);
+    let a = iv(x@.start as int, cut);
+    let b = iv(cut + 1, x@.end as int);
+    lemma_iv_len(x@.start as int, cut);
+    lemma_iv_len(cut + 1, x@.end as int);
+    assert forall|h: int| seq_has(cur, h) == (seq_has(pre, h) || r_has(x, h)) by { lemma_has_push(pre, x, h); }
+    assert forall|h: int| l.union(r).contains(h) == seq_has(pre, h) by {}
+    assert(r =~= ISet::<int>::empty());
+    assert(l.disjoint(a)) by { assert forall|h: int| !(l.contains(h) && a.contains(h)) by { if l.contains(h) { assert(l.union(r).contains(h)); } } }
+    lemma_disj_union_len(l, a);
+    assert(r2 =~= b);
+    assert(l.union(a).union(r2) =~= seq_view(cur));
+    assert forall|p: int, q: int| l.union(a).contains(p) && r2.contains(q) implies p < q by { if l.contains(p) { assert(l.union(r).contains(p)); } }
+}
+pub proof fn lemma_part_final(s: Seq<BlockRange>, l: ISet<int>, r: ISet<int>, ll: int, mid: int, l2: ISet<int>, r2: ISet<int>, m: int, from_right: bool)
+    requires wf_seq(s), part_inv(s, s.len() as int, l, r, ll, mid),
+        from_right ==> r.contains(m) && (forall|x: int| r.contains(x) ==> x >= m) && r2 == r.remove(m) && l2 == l,
+        !from_right ==> l.contains(m) && (forall|x: int| l.contains(x) ==> x <= m) && l2 == l.remove(m) && r2 == r,
+    ensures part_ok(seq_view(s), l2, m, r2)
+{
+    broadcast use vstd::iset::group_iset_lemmas;
+    assert(s.subrange(0, s.len() as int) =~= s);
+    lemma_seq_len_card(s);
+    assert(l.disjoint(r)) by { assert forall|h: int| !(l.contains(h) && r.contains(h)) by {} }
+    lemma_disj_union_len(l, r);
+    assert(l.union(r).contains(m));
+    assert(seq_view(s) =~= l2.union(r2).insert(m));
+}
+
 pub trait BlockRangeExt: Sized {
     spec fn rng(&self) -> BlockRange;
 
@@ -1653,6 +1786,74 @@ impl BlockRanges {
             broadcast use vstd::iset::group_iset_lemmas;
             lemma_seq_len_card(self.0@);
             lemma_tailn_final(self.0@, g, truncated@, len as int, limit as int);
+        }
+//@end
+
+//@fn impl BlockRanges :: partitions
+//@props C17 C36
+    pub(crate) fn partitions(&self) -> (res: Option<(BlockRanges, u64, BlockRanges)>)
+        requires self.wf()
+        ensures match res {
+            None => self.0@.len() == 0,
+            Some((l, m, r)) => l.wf() && r.wf() && part_ok(self@, l@, m as int, r@),
+        }
+//@ascribe "let mut left_len = 0;" => "let mut left_len: u64 = 0;"
+//@hint after "let len = self.len();"
+        proof { lemma_seq_len_bound(self.0@); }
+//@sub E1 ".insert_relaxed(range.to_owned())" all => ".insert_relaxed(range)"
+//@sub E1 "left.insert_relaxed(left_range)" => "left.insert_relaxed(&left_range)"
+//@sub E1 ".insert_relaxed(left_end + 1..=end)" => ".insert_relaxed(&(left_end + 1..=end))"
+//@hint before "for range in self.0.iter() {"
+        proof {
+            broadcast use vstd::iset::group_iset_lemmas;
+            assert(left@ =~= ISet::<int>::empty());
+            assert(right@ =~= ISet::<int>::empty());
+            assert(left@.union(right@) =~= seq_view(self.0@.subrange(0, 0)));
+            lemma_seq_len_bound(self.0@);
+        }
+//@for 1
+//@loop 1
+            invariant
+                __i1 <= self.0.len(), self.wf(), left.wf(), right.wf(),
+                len == seq_len(self.0@), len > 0, middle == len / 2,
+                part_inv(self.0@, __i1 as int, left@, right@, left_len as int, middle as int),
+                left_len <= middle + 1,
+            decreases self.0.len() - __i1
+//@hint before "let range_len = range.len();"
+            proof {
+                lemma_wf_prefix(self.0@, __i1 as int);
+                lemma_seq_len_bound(self.0@.subrange(0, __i1 as int));
+                lemma_seq_len_prefix(self.0@, __i1 as int - 1);
+                lemma_seq_len_rest(self.0@, __i1 as int - 1);
+                lemma_seq_len_bound(self.0@);
+                assert(r_valid(self.0@[__i1 as int - 1]));
+                assert(self.0@.subrange(0, __i1 as int).last() == self.0@[__i1 as int - 1]);
+            }
+            let ghost l0 = left@; let ghost r0 = right@; let ghost ll0 = left_len as int;
+//@hint after "left_len += range_len;"
+                proof { lemma_part_step(self.0@, __i1 as int - 1, l0, r0, ll0, middle as int, true); }
+//@hint before "left_len += left_range.len();"
+                proof { assert(r_set(left_range) =~= iv(start as int, left_end as int)); }
+//@hint before "} else {" 1
+                proof {
+                    broadcast use vstd::iset::group_iset_lemmas;
+                    assert(left@ =~= l0.union(iv(start as int, left_end as int)));
+                    if left_end < end { assert(right@ =~= r0.union(iv(left_end + 1, end as int))); }
+                    lemma_part_split(self.0@, __i1 as int - 1, l0, r0, ll0, middle as int, left_end as int, left@, right@);
+                }
+//@hint after ".expect(\"BlockRanges always holds valid ranges\");" last
+                proof { lemma_part_step(self.0@, __i1 as int - 1, l0, r0, ll0, middle as int, false); }
+//@hint before "let middle_height = if left_len < right.len() {"
+        let ghost lf = left@; let ghost rf = right@;
+        proof {
+            broadcast use vstd::iset::group_iset_lemmas;
+            assert(self.0@.subrange(0, self.0@.len() as int) =~= self.0@);
+            lemma_seq_len_card(right.0@);
+            lemma_seq_len_card(left.0@);
+        }
+//@hint before "Some((left, middle_height, right))"
+        proof {
+            lemma_part_final(self.0@, lf, rf, left_len as int, middle as int, left@, right@, middle_height as int, left_len < rf.len());
         }
 //@end
 
